@@ -41,6 +41,7 @@ ENV.pop("RUSTFLAGS", None)
 SCRATCH_ROOT = os.environ.get("VERIF_SCRATCH", "/var/tmp")
 MEM_CAP_KB = int(os.environ.get("VERIF_CBMC_RSS_GB", "12")) * 1024 * 1024
 JOBS = int(os.environ.get("VERIF_JOBS", "16"))
+MEM_BUDGET_GB = int(os.environ.get("VERIF_MEM_BUDGET_GB", "48"))
 
 _cleanup_dirs = []
 _children = []
@@ -269,7 +270,9 @@ def run_kani(ws, scratch, pkg, insts, tag, extra_args=(), playback=False, jobs=N
     if playback:
         cmd += ["-Z", "concrete-playback", "--concrete-playback=print", "-Z", "unstable-options", "--harness-timeout", "%ds" % tmax]
     else:
-        j = jobs or min(JOBS, len(insts))
+        # side-by-side solvers are limited by their expected memory (48 GB budget on this 62 GB machine)
+        heavy = max([getattr(i, "mem", 2) for i in insts] + [1])
+        j = jobs or max(1, min(JOBS, len(insts), int(MEM_BUDGET_GB // heavy)))
         cmd += [
             "-j", str(j), "--output-format", "terse", "--output-into-files",
             "-Z", "unstable-options", "--harness-timeout", "%ds" % tmax,
@@ -282,7 +285,9 @@ def run_kani(ws, scratch, pkg, insts, tag, extra_args=(), playback=False, jobs=N
     if unwindset:
         cmd += ["--cbmc-args", "--unwindset", unwindset]  # must be the last flag
     logf = os.path.join(scratch, "kani-%s.log" % tag)
-    waves = (len(insts) + JOBS - 1) // JOBS
+    heavy_w = max([getattr(i, "mem", 2) for i in insts] + [1])
+    par = max(1, min(JOBS, int(MEM_BUDGET_GB // heavy_w)))
+    waves = (len(insts) + par - 1) // par
     overall = 600 + tmax * waves + 120
     t0 = time.time()
     rc, to = run_cmd(cmd, ws, logf, timeout=overall)
@@ -462,7 +467,7 @@ def body(args, pid, P, seed, scratch, t_start):
     groups = []  # [pkg, feats, {pattern: bucket}, stubbed, [instances]]
     for i in sorted(insts, key=lambda i: -len(i.unwindset)):
         sig = {(f, rx): b for (f, rx, b) in unwind_signature(i)}
-        stubbed = any("kani::stub" in a for a in i.attrs)
+        stubbed = (any("kani::stub" in a for a in i.attrs), getattr(i, "mem", 2) > 4)
         feats = tuple(sorted(i.features))
         for g in groups:
             if g[0] == i.pkg and g[1] == feats and g[3] == stubbed and all(g[2].get(k, v) == v for k, v in sig.items()):
